@@ -7,26 +7,25 @@ from checks import _smooth as S
 
 META = dict(
     engine="tlc-replay",
-    technique="TLA+ spec SmoothLattice.tla: spring = -k (q - springref), damper = -d v, gravity compensation = -gc J' m g, "
-              "fixed-tendon spring with dead band and damper, potential energy, all by definition in exact integer arithmetic "
+    technique="TLA+ spec SmoothLattice.tla: documented polynomial laws spring f(x) = -(a x + b x^2 + c x^3), damper f(v) = "
+              "-(a v + b v|v| + c v^3), potential a x^2/2 + b x^3/3 + c x^4/4 for joints, the fixed tendon (dead band) and a "
+              "spatial site-to-site tendon (integer length; rationals over L^4), gravity compensation = -gc J' m g, potential "
+              "energy, all by definition in exact integer arithmetic "
               "(hinge quantities in units of a quarter turn); TLC decides spring+gravity force = - exact central difference "
-              "of the potential, damper power <= 0, gravity compensation = gradient of the compensated bodies' potential, zero "
+              "of the potential (springs: exact five-point stencil of the quartic potential), dampers odd in the velocity and, "
+              "for sign-preserving coefficients, power <= 0 element by element and in total, gravity compensation = gradient of the compensated bodies' potential, zero "
               "passive force at rest at the reference; every finished model is replayed under the disable flags",
     text="Exhaustive 1-body lattice crossed with the spring/damper/gravity disable flags and tendon dead bands, exhaustive "
          "2-body lattice (thorough) and simulated 3-4 body models are replayed: qfrc_spring, qfrc_damper, qfrc_gravcomp, "
          "qfrc_passive, ten_length, ten_velocity, potential energy at the state and one lattice step forth/back along every "
          "coordinate (mj_integratePos).",
     note="Trusted: TLC, harness smooth_drv.cc. Both spring and damper disabled skips every passive force including gravity "
-         "compensation (documented). Not decided: polynomial stiffness/damping, ball/free joint springs, spatial tendons, "
-         "fluid and flex forces, actuator-applied gravity compensation.",
+         "compensation (documented). Not decided: ball/free joint springs, tendons wrapping geoms, damping inherited from "
+         "actuators, spatial-tendon potentials one lattice step away (irrational length), fluid and flex forces, actuator-applied gravity compensation.",
     ref="DESIGN.md section 4 C06, C07, C29")
 
 SPEC = os.path.join(S.TLA, "SmoothLattice.tla")
 U = S.U
-
-
-def two(a, b):
-    return a + b * U
 
 
 def script_for(ev):
@@ -41,36 +40,57 @@ def script_for(ev):
     sc.oks(S.state_lines(ev))
     sc.ok("forward 0")
     un = [S.unit_of(ev, d) for d in range(nv)]
-    spring = [ev["spring"][d] * un[d] for d in range(nv)]
-    passive = [two(ev["pasA"][d], ev["pasB"][d]) for d in range(nv)]
-    scale = max([1.0] + [abs(x) for x in spring] + [abs(x) for x in ev["damper"]] + [abs(x) for x in ev["gravcomp"]])
+    den = ev["pden"]                     # spring, damper, passive are published over this denominator (L^4 or 1)
+    spring = [S.upoly(ev["spring"][d], den) for d in range(nv)]
+    damper = [ev["damper"][d] / float(den) for d in range(nv)]
+    passive = [S.upoly(ev["passive"][d], den) for d in range(nv)]
+    scale = max([1.0] + [abs(x) for x in spring] + [abs(x) for x in damper] + [abs(x) for x in ev["gravcomp"]])
     sc.vec("get 0 qfrc_spring", "qfrc_spring", spring, scale=scale)
-    sc.vec("get 0 qfrc_damper", "qfrc_damper", ev["damper"], scale=scale)
+    sc.vec("get 0 qfrc_damper", "qfrc_damper", damper, scale=scale)
     sc.vec("get 0 qfrc_gravcomp", "qfrc_gravcomp", ev["gravcomp"], scale=scale)
     sc.vec("get 0 qfrc_passive", "qfrc_passive", passive, scale=scale)
     ten = [b for b in ev["bodies"] if b["tc"] != 0]
+    tl, tv = [], []
     if ten:
         tu = U if ten[0]["jt"] == "hinge" else 1.0
-        sc.vec("get 0 ten_length", "ten_length", [ev["tlen"] * tu])
-        sc.vec("get 0 ten_velocity", "ten_velocity", [ev["tvel"]])
-    escale = max([1.0, abs(ev["potA2"]) / 2.0, abs(ev["potB2"]) * U * U / 2.0])
+        tl.append(ev["tlen"] * tu)
+        tv.append(ev["tvel"])
+    if ev["spL"] > 0:                    # the spatial tendon comes after the fixed one
+        tl.append(ev["spL"])
+        tv.append(ev["spS"] / float(ev["spL"]))
+    if tl:
+        sc.vec("get 0 ten_length", "ten_length", tl)
+        sc.vec("get 0 ten_velocity", "ten_velocity", tv, scale=max(abs(x) for x in tv))
+    pot = S.upoly(ev["pot12"], 12)
+    escale = max([1.0] + [abs(x) * U ** k / 12.0 for k, x in enumerate(ev["pot12"])])
     sc.ok("energyPos 0")
-    sc.num("dscalar 0 energy0", "energy(potential)", (ev["potA2"] + ev["potB2"] * U * U) / 2.0, scale=escale)
-    for d in range(nv):
-        for sgn, a2, b2 in ((1, ev["potA2p"][d], ev["potB2p"][d]), (-1, ev["potA2m"][d], ev["potB2m"][d])):
-            sc.ok("copydata 1 0")
-            sc.ok("intpos 1 %d %s" % (d, S.num(sgn * un[d])))
-            sc.ok("fwdPosition 1")
-            sc.ok("energyPos 1")
-            sc.num("dscalar 1 energy0", "energy(potential)%+d" % sgn, (a2 + b2 * U * U) / 2.0,
-                   scale=max(escale, abs(a2) / 2.0, abs(b2) * U * U / 2.0))
+    sc.num("dscalar 0 energy0", "energy(potential)", pot, scale=escale)
+    if ev["fdok"]:
+        for d in range(nv):
+            for sgn, p12 in ((1, ev["pot12p"][d]), (-1, ev["pot12m"][d])):
+                sc.ok("copydata 1 0")
+                sc.ok("intpos 1 %d %s" % (d, S.num(sgn * un[d])))
+                sc.ok("fwdPosition 1")
+                sc.ok("energyPos 1")
+                sc.num("dscalar 1 energy0", "energy(potential)%+d" % sgn, S.upoly(p12, 12),
+                       scale=max([escale] + [abs(x) * U ** k / 12.0 for k, x in enumerate(p12)]))
     return sc
 
 
 def sig_of(ev, label):
-    dis = "+".join(sorted(ev["glob"]["dis"])) or "none"
-    ten = "+tendon" if any(b["tc"] != 0 for b in ev["bodies"]) else ""
-    return "C29:%s:joints=%s%s:disabled=%s" % (label, "".join(sorted(set(S.features(ev)))), ten, dis)
+    """quantity : kinds of elements carrying the quantity (joint types, fixed / spatial tendon, polynomial coefficients) :
+    disable flags that matter for it"""
+    b, g = ev["bodies"], ev["glob"]
+    ten = ("+tendon" if any(x["tc"] != 0 for x in b) else "") + ("+spatial" if ev["sppas"] else "")
+    pk = any(tuple(x["kp"]) != (0, 0) for x in b) or tuple(g["tkp"]) != (0, 0) or tuple(g["ssk"][1:]) != (0, 0)
+    pd = any(tuple(x["dp"]) != (0, 0) for x in b) or tuple(g["tdp"]) != (0, 0) or tuple(g["ssd"][1:]) != (0, 0)
+    if label.startswith("qfrc_damper") or label.startswith("ten_velocity"):
+        return "C29:%s:joints=%s%s%s" % (label, "".join(sorted(set(S.features(ev)))), ten, "+polydamper" if pd else "")
+    if label.startswith("qfrc_spring") or label.startswith("energy") or label.startswith("ten_length"):
+        return "C29:%s:joints=%s%s%s:disabled=%s" % (label, "".join(sorted(set(S.features(ev)))), ten, "+polyspring" if pk else "",
+                                                    "+".join(sorted(set(g["dis"]) - {"damper"})) or "none")
+    return "C29:%s:joints=%s%s%s%s:disabled=%s" % (label, "".join(sorted(set(S.features(ev)))), ten, "+polyspring" if pk else "",
+                                                  "+polydamper" if pd else "", "+".join(sorted(g["dis"])) or "none")
 
 
 def describe(ev):
@@ -83,6 +103,15 @@ NEED = {
     "a stretched slide spring": lambda ev: any(b["jt"] == "slide" and b["k"] != 0 and b["q"] != b["qref"] for b in ev["bodies"])
     and "spring" not in ev["glob"]["dis"],
     "a moving damper": lambda ev: any(x != 0 for x in ev["damper"]),
+    "a joint damper with a non-zero odd-order (v|v|) coefficient at negative velocity": lambda ev: "damper" not in ev["glob"]["dis"] and any(
+        b["jt"] != "none" and b["dp"][0] != 0 and b["v"] < 0 for b in ev["bodies"]),
+    "a fixed-tendon damper with a non-zero odd-order coefficient at negative tendon velocity": lambda ev: (
+        "damper" not in ev["glob"]["dis"] and any(b["tc"] != 0 for b in ev["bodies"]) and ev["glob"]["tdp"][0] != 0 and ev["tvel"] < 0),
+    "a joint spring with non-zero quadratic and cubic coefficients, stretched both ways": lambda ev: "spring" not in ev["glob"]["dis"] and any(
+        b["jt"] != "none" and b["kp"][0] != 0 and b["kp"][1] != 0 and b["q"] != b["qref"] for b in ev["bodies"]),
+    "a fixed-tendon spring with a polynomial coefficient outside its dead band": lambda ev: (
+        "spring" not in ev["glob"]["dis"] and tuple(ev["glob"]["tkp"]) != (0, 0) and any(b["tc"] != 0 for b in ev["bodies"]) and (
+            ev["tlen"] > ev["glob"]["trange"][1] or ev["tlen"] < ev["glob"]["trange"][0])),
     "gravity compensation with a nonzero force": lambda ev: any(x != 0 for x in ev["gravcomp"]),
     "a tendon outside its dead band": lambda ev: ev["glob"]["tk"] != 0 and any(b["tc"] != 0 for b in ev["bodies"]) and (
         ev["tlen"] > ev["glob"]["trange"][1] or ev["tlen"] < ev["glob"]["trange"][0]),
@@ -94,17 +123,28 @@ NEED = {
 }
 
 
+NEED_SIM = {       # occur only in the simulated large lattice (the spatial tendon needs an integer length)
+    "a spatial-tendon damper with a non-zero odd-order coefficient at negative tendon velocity": lambda ev: (
+        ev["sppas"] and "damper" not in ev["glob"]["dis"] and ev["glob"]["ssd"][1] != 0 and ev["spS"] < 0),
+    "a spatial-tendon spring outside its dead band": lambda ev: (
+        ev["sppas"] and "spring" not in ev["glob"]["dis"] and tuple(ev["glob"]["ssk"]) != (0, 0, 0) and (
+            ev["spL"] > ev["glob"]["ssr"][1] or ev["spL"] < ev["glob"]["ssr"][0])),
+}
+
+
 def run(ctx):
     ctx.assume("trees of at most 4 bodies, one slide or hinge joint per body on a signed coordinate axis, quarter-turn poses",
                "integer stiffness, springref (in lattice units), damping, gravcomp in {0,1,2}, gravity vectors, velocities",
                "one fixed tendon over joints of one type with integer coefficients, stiffness, dead band, damping",
                "comparison tolerance 1e-9 relative to the largest passive force / energy term of the model")
     if ctx.quick:
-        mcs, nsim, cov = ["SmoothLattice_C29MC1.cfg"], 150, None
+        mcs, nsim, cov = ["SmoothLattice_C29MC1.cfg"], 120, None
     else:
         mcs, nsim, cov = ["SmoothLattice_C29MC1.cfg", "SmoothLattice_C29MC.cfg"], 1500, "SmoothLattice_Cov.cfg"
-    allres = S.run_lattice(ctx, "C29", SPEC, mcs, "SmoothLattice_C29Sim.cfg", nsim, script_for, sig_of, need=NEED,
-                           describe=describe, cov_cfg=cov, neg_cfg=None if ctx.quick else ("SmoothLattice_C29Neg.cfg", "NegSpringSign"))
+    allres = S.run_lattice(ctx, "C29", SPEC, mcs, "SmoothLattice_C29Sim.cfg", nsim, script_for, sig_of,
+                           need=NEED if ctx.quick else dict(NEED, **NEED_SIM), describe=describe, cov_cfg=cov,
+                           neg_cfg=None if ctx.quick else [("SmoothLattice_C29Neg.cfg", "NegSpringSign"),
+                                                           ("SmoothLattice_C29Neg2.cfg", "NegDamperPlainPoly")])
     sims = allres[-1][1]
     S.perturb_control(ctx, "perturbed spring force is flagged", sims, "qfrc_spring", 1e-6)
     S.perturb_control(ctx, "perturbed passive force is flagged", sims, "qfrc_passive", 1e-6)
